@@ -49,6 +49,7 @@ def run(idx: Index, rep: Report, tier: str):
     check_multiform_tables(idx, rep)
     check_multiform_semantics(idx, rep, tier)
     check_scalar_arithmetic(idx, rep)
+    check_hamiltonian_plain_operand(idx, rep)
     check_index_ranges(idx, rep)
     check_resync_after_compress(idx, rep)
     check_plain_operand_guard(idx, rep)
@@ -418,6 +419,128 @@ def check_multiform_semantics(idx: Index, rep: Report, tier: str):
         rep.floor("array-form operators after in-place changes: tests folded", k, 100)
 
 
+def check_hamiltonian_plain_operand(idx: Index, rep: Report):
+    """An annotated qubit Hamiltonian combined with a plain qubit operator (the repository's QubitOperator or openfermion's) in a sum, a difference and a
+    product, in place and out of place.  QubitHamiltonian is folded as a class; what it inherits from openfermion is a checker-side model that behaves as
+    openfermion does: its in-place operators accept a number or an operand of the class of `self`, and raise TypeError for anything else.  Each form has to
+    return the algebraically correct annotated operator and leave the plain operand alone; a form the class does not define falls back on the inherited
+    operator and fails on a plain operand."""
+    from ..consteval import FuncVal, Raised, Rec, Undecidable
+    from ..rules import circuitsem as cs
+    from ..rules.ofmodel import _simplify
+    rule = "K6.plain-operand"
+    cls = cs.module_resolver(idx, OPS)("QubitHamiltonian")
+    ci = idx.cls(f"{OPS}::QubitHamiltonian")
+    if cls is None:
+        raise AnalysisError("QubitHamiltonian not resolvable")
+
+    def is_op(v):
+        return isinstance(v, Rec) and v.cls in ("QubitHamiltonian", "QubitOperator", "of.QubitOperator")
+
+    def hook(v, t):
+        if t == "QubitHamiltonian":
+            return isinstance(v, Rec) and v.cls == "QubitHamiltonian"
+        if t == "QubitOperator":
+            return isinstance(v, Rec) and v.cls in ("QubitHamiltonian", "QubitOperator")
+        if t == "of.QubitOperator":
+            return is_op(v)
+        return None
+
+    class _Base:
+        """openfermion's SymbolicOperator seen through super(QubitOperator, self)"""
+        _sa_model = True
+
+        def __init__(self, rec):
+            self.rec = rec
+
+        def _operand(self, o, verb):
+            if isinstance(o, (int, float, complex)):
+                return None
+            if not (isinstance(o, Rec) and o.cls == self.rec.cls):
+                raise Raised("TypeError", None)
+            return o
+
+    def base_init(b, term=None, coefficient=1.):
+        b.rec.fields["terms"] = {} if term is None else {tuple(term): coefficient}
+
+    def base_iadd(b, o, sign=1):
+        oo = b._operand(o, "add")
+        if oo is None:
+            b.rec.fields["terms"][()] = b.rec.fields["terms"].get((), 0) + sign * o
+        else:
+            for w, c in oo.fields["terms"].items():
+                b.rec.fields["terms"][w] = b.rec.fields["terms"].get(w, 0) + sign * c
+        return b.rec
+
+    def base_imul(b, o):
+        oo = b._operand(o, "multiply")
+        if oo is None:
+            b.rec.fields["terms"] = {w: c * o for w, c in b.rec.fields["terms"].items()}
+            return b.rec
+        out = {}
+        for wa, ca in b.rec.fields["terms"].items():
+            for wb, cb in oo.fields["terms"].items():
+                ph, w = _simplify(tuple(wa) + tuple(wb))
+                out[w] = out.get(w, 0) + ca * cb * ph
+        b.rec.fields["terms"] = out
+        return b.rec
+    methods = {"__init__": base_init, "__iadd__": lambda b, o: base_iadd(b, o, 1), "__isub__": lambda b, o: base_iadd(b, o, -1), "__imul__": base_imul}
+
+    class _Super:
+        _sa_model = True
+
+        def __init__(self, term=None, coefficient=1.):          # the base constructor, as the class calls it through super()
+            base_init(self._b, term, coefficient)
+
+        def __getattr__(self, name):
+            if name in methods:
+                return lambda *a, **k: methods[name](self._b, *a, **k)
+            raise AttributeError(name)
+
+    def make_super(rec):
+        sup = object.__new__(_Super)
+        sup._b = _Base(rec)
+        return sup
+
+    def folder():
+        fo = cs.make_folder(idx, OPS, ctors={"super": lambda a, k: make_super(a[1])})
+        fo.isinstance_hook = hook
+        return fo
+    wa, wb = ((0, "X"), (1, "Y")), ((0, "Z"),)
+    ph, wprod = _simplify(wa + wb)
+    forms = {"__iadd__": ({wa: 2.0, wb: 0.5}, True), "__isub__": ({wa: 2.0, wb: -0.5}, True), "__imul__": ({wprod: 2.0 * 0.5 * ph}, True), "__mul__": ({wprod: 2.0 * 0.5 * ph}, False)}
+    n = 0
+    for name, (want, inplace) in forms.items():
+        meth = ci.methods.get(name)
+        for kind in ("QubitOperator", "of.QubitOperator"):
+            label = f"QubitHamiltonian.{name} with a plain {kind}"
+            if meth is None:
+                n += 1
+                rep.violation(rule, (OPS, "QubitHamiltonian"), ci.node, text=label, what="an annotated Hamiltonian combines with a plain qubit operator in sums, differences and products",
+                              reason=f"QubitHamiltonian does not define {name}: the inherited operator only accepts an operand of the class of self and raises TypeError for a plain operator")
+                continue
+            qh = Rec("QubitHamiltonian", {"terms": {wa: 2.0}, "mapping": "JW", "up_then_down": False})
+            qh.cls_val = cls
+            q = Rec(kind, {"terms": {wb: 0.5}})
+            q.closed = True                 # a plain operator has its terms and nothing else: reading another attribute is an AttributeError
+            try:
+                out = folder().call_funcval(FuncVal(meth.node, bound_self=qh, home=OPS), [q], {})
+            except Undecidable as e:
+                raise AnalysisError(f"QubitHamiltonian.{name} not foldable: {e}")
+            except Raised as e:
+                n += 1
+                rep.violation(rule, meth, meth.node, text=label, what="an annotated Hamiltonian combines with a plain qubit operator in sums, differences and products",
+                              reason=f"raises {e.exc_type}: the plain operand reaches the inherited operator, which only accepts an operand of the class of self")
+                continue
+            n += 1
+            got = {w: complex(c) for w, c in out.fields["terms"].items() if abs(complex(c)) > 1e-12} if isinstance(out, Rec) else None
+            ok = got is not None and set(got) == set(want) and all(abs(got[w] - want[w]) < 1e-12 for w in want) and out.fields.get("mapping") == "JW" and \
+                out.fields.get("up_then_down") is False and q.fields["terms"] == {wb: 0.5} and (inplace == (out is qh)) and (inplace or qh.fields["terms"] == {wa: 2.0})
+            rep.decide(ok, rule, meth, meth.node, text=label, what="the result is the algebraically correct operator with the Hamiltonian's mapping attributes; the plain operand "
+                       "(and, out of place, the Hamiltonian) is left as it was", reason=f"result {out!r:.160}; operand {q.fields['terms']}")
+    rep.floor("annotated-with-plain operand forms", n, 8)
+
+
 def check_scalar_arithmetic(idx: Index, rep: Report):
     """Sum and difference of a fermionic operator and a scalar, with the operator on either side and in place, folded for every kind of scalar the class
     admits (python int / float / complex, numpy floating, signed and unsigned numpy integers): the constant of the result is the exact sum or difference
@@ -545,7 +668,7 @@ def check_plain_operand_guard(idx: Index, rep: Report):
     rule = "K6.attr-guard"
     ci = idx.cls(f"{OPS}::QubitHamiltonian")
     n = 0
-    for mname in ("__iadd__", "__eq__", "__add__", "__isub__", "__sub__"):
+    for mname in ("__iadd__", "__eq__", "__add__", "__isub__", "__sub__", "__imul__", "_checked_operand"):
         m = ci.methods.get(mname)
         if m is None:
             continue
